@@ -61,8 +61,24 @@ def run(ctx):
             for x in walk_no_nested(e):
                 if isinstance(x, ast.Call) and isinstance(x.func, ast.Attribute):
                     present.add(x.func.attr)
+    # segments may be called directly in the loop body or through private helpers of the controller
+    reach_names = set()
+    for n in body_nodes:
+        for e in n.exprs():
+            if e is None:
+                continue
+            for x in walk_no_nested(e):
+                if isinstance(x, ast.Call):
+                    for t in res.resolve_call(x, ml, count=False).targets:
+                        if t.cls is ml.cls:
+                            for q in esc.reach([t]):
+                                f2 = prog.functions.get(q)
+                                if f2 is not None and f2.cls is ml.cls:
+                                    for y in walk_no_nested(f2.node):
+                                        if isinstance(y, ast.Call) and isinstance(y.func, ast.Attribute):
+                                            reach_names.add(y.func.attr)
     for name in SEGMENT_CALLS + ['recvfrom', 'sendto', 'recv']:
-        ctx.require(name in present, 'anchor vanished: event loop no longer calls %s' % name)
+        ctx.require(name in present or name in reach_names, 'anchor vanished: event loop no longer calls %s' % name)
     ctx.floor('V1 CFG nodes in the event-loop body', len(body_nodes), 30)
 
     # ---------------------------------------------------------------- V1
